@@ -26,7 +26,95 @@ func checkMonitors(sc *Scenario, impl *ImplRun) []MonitorViolation {
 		out = append(out, MonitorViolation{Property: "C12", Sig: "shared-payload-object", What: a})
 	}
 	out = append(out, replyMonitor(sc, impl)...)
+	out = append(out, metaOrderMonitor(impl)...)
 	return out
+}
+
+// metaOrderMonitor is C18's order clause on what each watcher saw, in arrival
+// order within one op: for one registration / subscription id, on_create comes
+// before on_register / on_subscribe and on_unregister / on_unsubscribe before
+// on_delete.  (Meta events are published one after the other and every
+// receiver's queue is FIFO, so the order at a receiver is the publication
+// order whatever subscription delivered them; the multiset comparison with
+// the model does not see it.)
+func metaOrderMonitor(impl *ImplRun) []MonitorViolation {
+	var out []MonitorViolation
+	first := map[string]string{"wamp.registration.on_register": "wamp.registration.on_create", "wamp.subscription.on_subscribe": "wamp.subscription.on_create"}
+	last := map[string]string{"wamp.registration.on_unregister": "wamp.registration.on_delete", "wamp.subscription.on_unsubscribe": "wamp.subscription.on_delete"}
+	for i, r := range impl.Results {
+		type key struct {
+			recv  int
+			topic string
+			id    string
+		}
+		seen := map[key]bool{}
+		for _, o := range r.Obs {
+			if msgCode(o.Msg) != 36 || len(o.Msg.L) < 5 {
+				continue
+			}
+			t, ok := o.Msg.L[3].Get("topic")
+			if !ok || t.T != 's' || !(len(t.S) > 5 && t.S[:5] == "wamp.") {
+				continue
+			}
+			args := o.Msg.L[4]
+			if args.T != 'l' || len(args.L) < 2 {
+				continue
+			}
+			id := args.L[1]
+			if id.T == 'd' { // on_create carries the details dict
+				id, _ = id.Get("id")
+			}
+			if id.T != 'i' {
+				continue
+			}
+			if need, ok := first[t.S]; ok && seen[key{o.Recv, need, id.I}] == false {
+				// only a violation when that on_create does arrive later in this op
+				for _, o2 := range r.Obs {
+					if o2.Recv == o.Recv && msgCode(o2.Msg) == 36 && len(o2.Msg.L) >= 5 {
+						if t2, _ := o2.Msg.L[3].Get("topic"); t2.S == need && !seen[key{o.Recv, need, id.I}] {
+							a2 := o2.Msg.L[4]
+							if a2.T == 'l' && len(a2.L) >= 2 && a2.L[1].T == 'd' {
+								if i2, _ := a2.L[1].Get("id"); i2.I == id.I && !seen[key{o.Recv, t.S, id.I}] {
+									out = append(out, MonitorViolation{Property: "C18", Sig: "meta-event-order", OpIndex: i,
+										What: fmt.Sprintf("session %d received %s for id %s before %s", o.Recv, t.S, id.I, need)})
+								}
+							}
+						}
+					}
+				}
+			}
+			if before, ok := last[invert(last, t.S)]; ok && t.S == before {
+				_ = before
+			}
+			if un := invert(last, t.S); un != "" && seen[key{o.Recv, t.S, id.I}] == false {
+				// t.S is an on_delete: a matching on_un* of this op must already have arrived
+				for _, o2 := range r.Obs {
+					if o2.Recv != o.Recv || msgCode(o2.Msg) != 36 || len(o2.Msg.L) < 5 {
+						continue
+					}
+					t2, _ := o2.Msg.L[3].Get("topic")
+					a2 := o2.Msg.L[4]
+					if t2.S == un && a2.T == 'l' && len(a2.L) >= 2 && a2.L[1].I == id.I && !seen[key{o.Recv, un, id.I}] {
+						out = append(out, MonitorViolation{Property: "C18", Sig: "meta-event-order", OpIndex: i,
+							What: fmt.Sprintf("session %d received %s for id %s before %s", o.Recv, t.S, id.I, un)})
+						break
+					}
+				}
+			}
+			seen[key{o.Recv, t.S, id.I}] = true
+		}
+	}
+	return out
+}
+
+// invert returns the key whose value is v ("" when none).
+func invert(m map[string]string, v string) string {
+	for k, x := range m {
+		if x == v {
+			return k
+		}
+	}
+	return ""
 }
 
 // replyMonitor is C02's first sentence evaluated on what the clients saw: per
